@@ -9,8 +9,10 @@ EXTENDS Integers, Sequences, FiniteSets, TLC, Json
 
 CONSTANTS Models,      \* set of base model names to generate
           Insts,       \* set of instance numbers
-          P,           \* pool size
+          P,           \* pool size (ordinary rows followed by NX extreme rows)
+          NX,          \* number of extreme rows at the end of every pool
           MaxLen,      \* longest batch
+          MaxLen32,    \* longest batch of the f32 variants
           Wrappers,    \* subset of {"mt", "mc", "platt"}
           MockP,       \* pool size of the mock multi-class cases
           Fts,         \* subset of {"f64", "f32"}
@@ -24,7 +26,8 @@ Range(s) == {s[q] : q \in DOMAIN s}
 
 \* per-type facts --------------------------------------------------------------------------------
 NF(m)    == IF m = "isotonic" THEN 1 ELSE IF m \in {"pca", "pls"} THEN 3 ELSE 2       \* features
-OT(m)    == IF m \in {"kmeans", "gmm", "logit", "mlogit", "svc", "svo", "tree", "gnb", "mnb"} THEN "lab" ELSE "fx"
+OT(m)    == IF m \in {"kmeans", "gmm", "logit", "mlogit", "svc", "svo", "tree", "gnb", "mnb"} THEN "lab"
+            ELSE IF m \in {"ftrl", "svp"} THEN "pr" ELSE "fx"       \* labels / probabilities / unbounded floats
 Width(m, inst) == IF m = "mtenet" THEN 2 + (inst % 2)
                   ELSE IF m \in {"pca", "ica"} THEN 2
                   ELSE IF m = "pls" THEN 2 ELSE 1
@@ -34,10 +37,21 @@ HasF32(m)   == m \in {"kmeans", "ols", "enet", "logit", "svc", "tree", "gnb"}   
 KindOf(m)   == IF m = "svp" THEN "platt" ELSE "plain"
 NonNeg(m)   == m = "mnb"
 
-\* pool rows in quarter units (value = cell / 4); row P repeats row 1 for odd instances (same sample, other id)
+\* pool rows in quarter units (value = cell / 4). The last ordinary row repeats row 1 for odd instances (same
+\* sample, other id). The pool ends with nx *extreme* rows, 1e2 .. 1e4 times the data scale, of both signs:
+\* variant 0 = every coordinate about +300, 1 = about -12000, 2 = alternating +-3000 (the variant rotates
+\* with the instance, so every type meets all three). Types with non-negative features get the absolute values.
 Cell(inst, i, cc, nonneg) == ((7 * i + 5 * cc + 3 * inst + i * cc) % 17) - (IF nonneg THEN 0 ELSE 4)
-PoolOf(nf, inst, np, nonneg) ==
-  [i \in 1..np |-> [cc \in 1..nf |-> Cell(inst, IF i = np /\ np > 2 /\ inst % 2 = 1 THEN 1 ELSE i, cc, nonneg)]]
+XCell(v, cc, nonneg) ==
+  LET raw == IF v = 0 THEN 1200 + 4 * cc
+             ELSE IF v = 1 THEN 0 - (48000 + 8 * cc)
+             ELSE IF cc % 2 = 1 THEN 12000 + 4 * cc ELSE 0 - (12000 + 4 * cc)
+  IN IF nonneg /\ raw < 0 THEN 0 - raw ELSE raw
+PoolOf(nf, inst, np, nx, nonneg) ==
+  LET no == np - nx IN
+  [i \in 1..np |-> [cc \in 1..nf |->
+     IF i <= no THEN Cell(inst, IF i = no /\ no > 2 /\ inst % 2 = 1 THEN 1 ELSE i, cc, nonneg)
+     ELSE XCell((inst + (i - no)) % 3, cc, nonneg)]]
 
 \* programs ----------------------------------------------------------------------------------------
 FormSeq   == <<"ref_arr", "own_arr", "ref_ds", "own_ds", "inplace", "dirty">>
@@ -63,14 +77,14 @@ Base(m, inst, ft, ids) ==
   [kind |-> KindOf(m),
    inp |-> [model |-> m, inst |-> inst, ft |-> ft, ot |-> OT(m), mot |-> "fx", nf |-> NF(m), w |-> Width(m, inst),
             nm |-> IF KindOf(m) = "platt" THEN 1 ELSE 0, mem |-> "self", labels |-> <<>>, tab |-> <<>>,
-            pool |-> PoolOf(NF(m), inst, P, NonNeg(m)),
+            pool |-> PoolOf(NF(m), inst, P, NX, NonNeg(m)),
             prog |-> Prog(ids, P, HasViews(m), HasRow1(m))]]
 
 WrapP(kind, mem, inst, m, ot, mot, labs, tab, np, prog) ==
   [kind |-> kind,
    inp |-> [model |-> kind, inst |-> inst, ft |-> "f64", ot |-> ot, mot |-> mot, nf |-> 2,
             w |-> IF kind = "mt" THEN m ELSE 1, nm |-> m, mem |-> mem, labels |-> labs, tab |-> tab,
-            pool |-> PoolOf(2, inst, np, FALSE),
+            pool |-> PoolOf(2, inst, np, IF mem = "mock" /\ kind = "mc" THEN 0 ELSE NX, FALSE),
             prog |-> prog]]
 \* instance 4 of the naive-Bayes types: two mirror-image classes and a pool whose first row is an exact
 \* tie between them (integer data, the two joint log-likelihoods are the same float)
@@ -93,7 +107,7 @@ MockBatches(np) == {<<>>, [i \in 1..np |-> i], [i \in 1..np |-> np + 1 - i]} \cu
 
 Init ==
   \/ \E m \in Models, inst \in Insts, ft \in Fts, ids \in Batches(P, MaxLen) :
-       /\ ft = "f32" => HasF32(m)
+       /\ ft = "f32" => (HasF32(m) /\ Len(ids) <= MaxLen32)
        /\ case = Base(m, inst, ft, ids)
   \/ \E m \in Models \cap {"gnb", "mnb"}, ids \in {<<1>>, <<1, 1>>, <<1, 2, 3>>, <<3, 1, 2>>} :
        case = TieBase(m, ids)
@@ -103,14 +117,14 @@ Init ==
                       <<>>, <<>>, P, ids)
   \/ /\ "mc" \in Wrappers
      /\ \E m \in 1..3, inst \in Insts, ids \in Batches(P, MaxLen) :
-          case = Wrap("mc", "real", inst, m, "lab", "fx", SubSeq(Labels3, 1, m), <<>>, P, ids)
+          case = Wrap("mc", "real", inst, m, "lab", "pr", SubSeq(Labels3, 1, m), <<>>, P, ids)
   \/ /\ "mc" \in Wrappers
      /\ \E m \in 1..3 : \E tab \in Tabs(m, MockP), ids \in MockBatches(MockP) :
-          case = WrapP("mc", "mock", 2, m, "lab", "fx", SubSeq(Labels3, 1, m),
+          case = WrapP("mc", "mock", 2, m, "lab", "pr", SubSeq(Labels3, 1, m),
                        [jj \in 1..m |-> [i \in 1..MockP |-> tab[jj][i]]], MockP, Lite(ids, MockP))
   \/ /\ "platt" \in Wrappers
      /\ \E mem \in {"mock", "ols", "svr", "enet"}, inst \in Insts, ids \in Batches(P, MaxLen) :
-          case = Wrap("platt", mem, inst, 1, "fx", "fx", <<>>, <<>>, P, ids)
+          case = Wrap("platt", mem, inst, 1, "pr", "fx", <<>>, <<>>, P, ids)
 
 Next == UNCHANGED case
 Emit == PrintT("CASE " \o ToJson(case))
